@@ -26,6 +26,7 @@ import (
 	"github.com/samsarahq/thunder/batch"
 	"github.com/samsarahq/thunder/concurrencylimiter"
 	"github.com/samsarahq/thunder/verifhook"
+	"verifharness/pkg/panics"
 	"verifharness/pkg/sched"
 	"verifharness/pkg/vh"
 )
@@ -182,7 +183,14 @@ func errKind(err error) string {
 }
 
 // wantKind: what the members of a batch get for an outcome of the harness's Many script
-var wantKind = map[string]string{"ok": "", "slow": "", "err": "user", "panic": "liberr", "short": "liberr", "long": "liberr"}
+var wantKindTab = map[string]string{"ok": "", "slow": "", "err": "user", "short": "liberr", "long": "liberr"}
+
+func wantKind(outcome string) string {
+	if panics.Is(outcome) {
+		return "liberr" // whatever the value Many panicked with
+	}
+	return wantKindTab[outcome]
+}
 
 func sameErr(a, b error) (same bool) {
 	defer func() {
@@ -256,13 +264,14 @@ func runCase(c *Case) (*exec, bool) {
 			for i, a := range ints {
 				rs[i] = fOf(a)
 			}
+			if panics.Is(out) {
+				panics.Do(out, len(ints))
+			}
 			switch out {
 			case "slow":
 				time.Sleep(300 * time.Microsecond)
 			case "err":
 				return nil, errUser
-			case "panic":
-				panic("boom")
 			case "short":
 				if len(rs) > 0 {
 					rs = rs[:len(rs)-1]
@@ -485,7 +494,7 @@ func oracle(e *exec, all bool) []failure {
 			// the caller belongs to one of the batches that saw its value
 			wants := map[string]bool{}
 			for _, mc := range sawIn[k] {
-				wants[wantKind[mc.outcome]] = true
+				wants[wantKind(mc.outcome)] = true
 			}
 			if !wants[r.kind] {
 				add("wrong-error-kind", "Invoke(%d) got error kind %q, the batches that saw its argument give %v", i, r.kind, wants)
@@ -512,10 +521,10 @@ func coqRet(val int, kind string, outcome string) string {
 	case "ctx":
 		return "(RErr ECtx)"
 	case "liberr":
-		switch outcome {
-		case "panic":
+		switch {
+		case panics.Is(outcome):
 			return "(RErr EPanic)"
-		case "short", "long":
+		case outcome == "short", outcome == "long":
 			return "(RErr EWrongLen)"
 		}
 	}
@@ -669,8 +678,9 @@ func emit(e *exec) ([]string, emitStats) {
 					rs = append(rs, 0)
 				}
 				o = "(ORes " + natList(rs) + ")"
-			case "panic":
-				o = "OPanic"
+			}
+			if panics.Is(mc.outcome) {
+				o = "(OPanic " + panics.Coq(mc.outcome) + ")"
 			}
 			if mc.outcome != "ok" && mc.outcome != "slow" {
 				st.nonOk++
@@ -719,7 +729,8 @@ func mini(a, b int) int {
 
 // ---- generators ----
 
-var outcomeKinds = []string{"ok", "ok", "ok", "ok", "slow", "slow", "err", "panic", "short", "long"}
+var outcomeKinds = []string{"ok", "ok", "ok", "ok", "ok", "ok", "ok", "ok", "ok", "slow", "slow", "slow", "err", "err", "short", "long",
+	"panic", "panic-error", "panic-rt-nilmap", "panic-rt-index", "panic-rt-nilptr", "panic-rt-assert", "panic-rt-divide", "panic-custom"}
 var holdPoints = []string{"batch.wake", "batch.run", "batch.done", "h.many", "batch.cancelled"}
 var cancelPoints = []string{"start", "batch.join", "batch.join", "batch.wake", "batch.unpublished", "batch.run", "h.many", "batch.done"}
 
